@@ -42,6 +42,16 @@ pub fn scenario(g: &mut Gen) -> Scenario {
     if g.rng.chance(1, 2) {
         partials.push(("broken".into(), Err("{% if %}x{{".into())));
     }
+    // names that differ only by the `.liquid` suffix `render` falls back to
+    if g.rng.chance(1, 3) {
+        partials.push(("p1.liquid".into(), Ok(vec![text("<dotted-p1>")])));
+        avail.push("p1.liquid".into());
+    }
+    if g.rng.chance(1, 4) {
+        partials.push(("solo.liquid".into(), Ok(vec![text("<solo>"), Node::Assign("a".into(), lit_s("solo"), vec![])])));
+        avail.push("solo.liquid".into());
+        avail.push("solo".into());
+    }
     g.partials = avail.clone();
     g.dynamic_names = true;
     if g.rng.chance(1, 3) {
